@@ -403,7 +403,7 @@ Definition hash_key (hv : var -> Z) (f : qfac) : hkey :=
 
 (* ---- a tiny store model of copy() and of the out-of-place protocol ----------------------------- *)
 (* Objects: a factor object holds locations of its variables list, cardinality array, values array and
-   of its state-name dict; the dict holds locations of the (shared, never mutated) inner state lists. *)
+   of its state-name dict; the dict holds locations of the inner state lists (copied by copy() too). *)
 Inductive obj :=
 | OVars (l : list var) | OCard (l : list nat) | OVals (t : tensor Qc)
 | ODict (d : list (var * nat))            (* variable -> location of its state list *)
@@ -414,16 +414,27 @@ Definition alloc (s : store) (o : obj) : store * nat := (s ++ [o], length s).
 Definition sread (s : store) (l : nat) : option obj := nth_error s l.
 Definition swrite (s : store) (l : nat) (o : obj) : store := set_nth l o s.
 
-(* copy(): fresh list / arrays / dict object; the dict's inner state lists are shared *)
+(* copy(): fresh list / arrays / dict object AND fresh inner state lists
+   (copy.state_names = {var: list(names) for var, names in self.state_names.items()}) *)
+Fixpoint copy_states (s : store) (dd : list (var * nat)) : store * list (var * nat) :=
+  match dd with
+  | [] => (s, [])
+  | (v, l) :: r =>
+      let o := match sread s l with Some (OStates x) => OStates x | _ => OStates [] end in
+      let '(s1, l') := alloc s o in
+      let '(s2, r') := copy_states s1 r in
+      (s2, (v, l') :: r')
+  end.
 Definition store_copy (s : store) (lf : nat) : option (store * nat) :=
   match sread s lf with
   | Some (OFactor lv lc lx ld) =>
       match sread s lv, sread s lc, sread s lx, sread s ld with
       | Some (OVars v), Some (OCard c), Some (OVals x), Some (ODict dd) =>
-          let '(s1, lv') := alloc s (OVars v) in
+          let '(s0, dd') := copy_states s dd in
+          let '(s1, lv') := alloc s0 (OVars v) in
           let '(s2, lc') := alloc s1 (OCard c) in
           let '(s3, lx') := alloc s2 (OVals x) in
-          let '(s4, ld') := alloc s3 (ODict dd) in
+          let '(s4, ld') := alloc s3 (ODict dd') in
           Some (alloc s4 (OFactor lv' lc' lx' ld'))
       | _, _, _, _ => None
       end
@@ -482,3 +493,8 @@ Fixpoint fd_dot_go (acc : R) (ps : list (dfactor R * dfactor R * list var)) : re
   end.
 Definition factordict_dot (ps : list (dfactor R * dfactor R * list var)) : res R := fd_dot_go zero ps.
 End FactorDictDot.
+
+(* the table seen in the max-product semiring with bottom (C04/MaxCsr.v): every entry q becomes Some q *)
+Definition lift_factor (f : dfactor Qc) : dfactor (option Qc) :=
+  {| dvars := dvars f; dcard := dcard f; dstates := dstates f;
+     dvals := {| tshape := tshape (dvals f); tdata := map Some (tdata (dvals f)) |} |}.
